@@ -163,6 +163,7 @@ def project(cfg: CFG, labeler: Labeler, accept_exit=True, accept_xexit: Optional
     """
     nfa = NFA()
     ins: Dict[int, int] = {}
+    mids: Dict[int, int] = {}
     outs: Dict[int, int] = {}
     stop = set(stop_nodes)
     live = cfg.reachable_ids
@@ -171,9 +172,14 @@ def project(cfg: CFG, labeler: Labeler, accept_exit=True, accept_xexit: Optional
             continue
         i = nfa.new()
         ins[n.id] = i
-        labels = list(labeler(n)) if n.kind not in ('entry', 'exit', 'xexit', 'join') else []
+        labels = list(labeler(n)) if n.kind not in ('entry', 'exit', 'xexit') else []
         cur = i
-        for lab in labels:
+        for lab in [l for l in labels if l.startswith('^')]:
+            nxt = nfa.new()
+            nfa.add(cur, lab[1:], nxt, n.id)
+            cur = nxt
+        mids[n.id] = cur
+        for lab in [l for l in labels if not l.startswith('^')]:
             nxt = nfa.new()
             nfa.add(cur, lab, nxt, n.id)
             cur = nxt
@@ -182,7 +188,7 @@ def project(cfg: CFG, labeler: Labeler, accept_exit=True, accept_xexit: Optional
         if n.id not in live or n.id in stop:
             continue
         for (y, l) in cfg.succ[n.id]:
-            src = ins[n.id] if l == 'exc' else outs[n.id]
+            src = mids[n.id] if l == 'exc' else outs[n.id]
             lab = edge_labeler(n.id, y, l) if edge_labeler else None
             nfa.add(src, lab, ins[y], n.id)
     nfa.start = ins[start if start is not None else cfg.entry]
@@ -371,7 +377,8 @@ ERROR = '!ERROR'
 
 def typestate(cfg: CFG, labeler: Labeler, delta: Callable[[str, str], str], init: str,
               exit_ok: Optional[Callable[[str], bool]] = None, xexit_ok: Optional[Callable[[str], bool]] = None,
-              events_before_exc: bool = False, start: Optional[int] = None
+              events_before_exc: bool = False, start: Optional[int] = None,
+              edge_delta: Optional[Callable[[str, int, int, str], str]] = None
               ) -> Tuple[Optional[Tuple[List[int], str, str]], int, int]:
     """Product of the CFG with a property automaton.
 
@@ -390,7 +397,7 @@ def typestate(cfg: CFG, labeler: Labeler, delta: Callable[[str, str], str], init
     def labels_of(nid):
         if nid not in label_cache:
             n = cfg.node(nid)
-            label_cache[nid] = list(labeler(n)) if n.kind not in ('entry', 'exit', 'xexit', 'join') else []
+            label_cache[nid] = list(labeler(n)) if n.kind not in ('entry', 'exit', 'xexit') else []
         return label_cache[nid]
 
     def trace(key, reason, st):
@@ -412,18 +419,34 @@ def typestate(cfg: CFG, labeler: Labeler, delta: Callable[[str, str], str], init
             if xexit_ok is not None and not xexit_ok(st):
                 return trace(key, 'exceptional exit in state %s' % st, st), len(prev), ntrans
             continue
-        st_after = st
         bad = None
-        for lab in labels_of(nid):
-            nxt = delta(st_after, lab)
+        st_mid = st
+        labs = labels_of(nid)
+        for lab in [l for l in labs if l.startswith('^')]:
+            nxt = delta(st_mid, lab[1:])
             if nxt == ERROR:
-                bad = lab
+                bad = lab[1:]
                 break
-            st_after = nxt
+            st_mid = nxt
+        st_after = st_mid
+        if bad is None:
+            for lab in [l for l in labs if not l.startswith('^')]:
+                nxt = delta(st_after, lab)
+                if nxt == ERROR:
+                    bad = lab
+                    break
+                st_after = nxt
         if bad is not None:
             return trace(key, 'event %s in state %s' % (bad, st_after), st_after), len(prev), ntrans
         for (y, l) in cfg.succ[nid]:
-            s2 = st_after if (l != 'exc' or events_before_exc) else st
+            s2 = st_after if (l != 'exc' or events_before_exc) else st_mid
+            if edge_delta is not None:
+                s2 = edge_delta(s2, nid, y, l)
+                if s2 is None:
+                    continue  # infeasible edge in this state (pruned by the rule)
+                if s2 == ERROR:
+                    prev[(y, ERROR)] = key
+                    return trace((y, ERROR), 'edge %s->%s (%s)' % (nid, y, l), ERROR), len(prev), ntrans
             k2 = (y, s2)
             ntrans += 1
             if k2 not in prev:
